@@ -52,6 +52,9 @@ var maxRegister = porcupine.Model{
 var caseNo int
 var t0 = time.Now()
 
+// series of one case differ in shape: plain, tagged, metrics2.0, long, and one that is a prefix of another
+var seriesSuffix = []string{"", ";dc=eu;host=a", ".unit=B.mtype=gauge", "." + strings.Repeat("long", 40), ".x"}
+
 func TestPropOrdered(t *testing.T) {
 	rec := ev.Get("ordered")
 	rapid.Check(t, func(t *rapid.T) {
@@ -80,7 +83,7 @@ func TestPropOrdered(t *testing.T) {
 				default:
 					ts = rapid.SampledFrom(tsPool).Draw(t, "ts")
 				}
-				name := fmt.Sprintf("%ss%d", prefix, s)
+				name := fmt.Sprintf("%ss%d%s", prefix, s, seriesSuffix[s%len(seriesSuffix)])
 				if rapid.IntRange(0, 3).Draw(t, "dot") == 0 {
 					name = "." + name
 				}
